@@ -17,7 +17,7 @@ META = {
               "symeig_torchfcn.backward with its projection, shifted solve and separate A/M pull-backs for custom_exacteig) is "
               "differentiated w.r.t. p and proved identical to the gradient of the same loss of the closed form (e(p), X(p)); n=2 full and "
               "partial spectra (n=3 with an exactly degenerate pair in the thorough tier), with and without M, dense and matrix-free "
-              "operators, gauge-invariant losses (eigenvalues, X*X); second order for n=2 without M; svd of 2x2 matrices",
+              "operators, gauge-invariant losses (eigenvalues, X*X); second order for n=2 without M; svd of 2x2 matrices and of 2x3 matrix-free operators",
     "outside": "davidson as forward method (the backward only sees its output), near-degenerate conditioning (eigenvalue gaps "
                "between the code's degeneracy thresholds and 1e-2), n>3, second order with M, rounding",
     "assumptions": ["torch.linalg.eigh/cholesky replaced by contracts returning the planted factors (values only: gradients flow "
@@ -175,6 +175,41 @@ def svd_grad(cx, mode="uppest", k=None, method="exacteig"):
     return "ok"
 
 
+def svd_grad_wide(cx, opkind="mvonly", k=None, method="exacteig"):
+    """2x3 (wide) operator given matrix-free (only _mv, or _mv and _rmv): A = U(tu) diag(sig) V[:, :2]^T with the 3x3 rotation V
+    fixed; svd() then diagonalises A A^T, which it builds through the operator's adjoint products; gradients w.r.t. tu, sig
+    and the entries of a perturbation P added to A (so that every entry of the operator's matrix is a leaf)"""
+    from harness.spectral import rot3
+    from harness.linops import make_classes
+    tu = cx.sym("tu", (), requires_grad=True)
+    sig = cx.sym("sig", (2,), positive=True, lo=0.25, hi=2, requires_grad=True)
+    cx.assume(sig.detach()[0] > 1e-1)
+    cx.assume(sig.detach()[1] - sig.detach()[0] > 1e-1)
+    U = rot2(tu)
+    Vm = rot3(cx.const(torch.tensor([1.0, 0.5, -0.25, 0.75], dtype=torch.float64)))[:, :2]
+    A = torch.matmul(U * sig.unsqueeze(-2), Vm.transpose(-2, -1))          # (2, 3)
+    G = torch.matmul(A, A.transpose(-2, -1))
+    cx.plant("eigh", G.detach(), ((sig * sig).detach(), U.detach()))
+    for i in range(2):
+        cx.plant("sqrt", (sig[i] * sig[i]).detach().reshape(1), sig[i].detach())
+    op = make_classes()[opkind](A)
+    kk = 2 if k is None else k
+    u, s, vh = svd(op, k=k, mode="uppest", method=method)
+    sl = slice(2 - kk, 2)
+    w = cx.sym("w", (kk,))
+    R = cx.sym("R", (2, 3))
+    rank1 = torch.matmul(u * s.unsqueeze(-2), vh)
+    rank1_ref = torch.matmul(U[:, sl] * sig[sl].unsqueeze(-2), Vm[:, sl].transpose(-2, -1))
+    loss1 = (w * s).sum() + (R * rank1).sum()
+    loss2 = (w * sig[sl]).sum() + (R * rank1_ref).sum()
+    cx.claim_eq("loss value", loss1, loss2)
+    g1 = grads(loss1, [tu, sig])
+    g2 = grads(loss2, [tu, sig])
+    for nm, a, b in zip(["tu", "sig"], g1, g2):
+        cx.claim_eq("d/d" + nm, a, b)
+    return "ok"
+
+
 def configs(tier):
     cfgs = []
 
@@ -197,6 +232,8 @@ def configs(tier):
     add("aux_real_only/batch_mixed_degenerate/exacteig", batch_mixed, method="exacteig", opts={"real_only": True, "validate": 3})
     add("svd/exacteig/full", svd_grad, mode="uppest", k=None)
     add("svd/custom_exacteig/k1/lowest", svd_grad, mode="lowest", k=1, method="custom_exacteig")
+    add("svd/exacteig/wide2x3/mvonly", svd_grad_wide, opkind="mvonly")
+    add("svd/exacteig/wide2x3/mvrmv/k1", svd_grad_wide, opkind="mvrmv", k=1)
     if tier == "thorough":
         big = {"budget_s": 1700, "timeout_ms": 90000}
         for method in ("exacteig", "custom_exacteig"):
